@@ -53,7 +53,11 @@ MkDecl(P, i) ==
   ELSE IF c = 10 THEN (IF Targets(P) = {} THEN exe
                        ELSE [Blank EXCEPT !.kind = "alias", !.name = nm, !.deps = PickN(Targets(P), 1 + Below(R(3), 2), 40)])
   ELSE IF c = 11 THEN [Blank EXCEPT !.kind = "cmd", !.name = nm, !.deps = PickN(Targets(P), Below(R(3), 2), 40)]
-  ELSE IF c = 12 THEN (IF exes = {} THEN exe ELSE [Blank EXCEPT !.kind = "test", !.name = nm, !.deps = PickN(exes, 1, 40)])
+  \* test([exe, other built file]): every built file named on the test's command line is a member of `tests`
+  ELSE IF c = 12 THEN (IF exes = {} THEN exe
+                       ELSE LET e1 == PickN(exes, 1, 40)
+                                more == IF Below(R(3), 2) = 0 THEN PickN(filesT \ {e1[1]}, 1, 42) ELSE <<>> IN
+                            [Blank EXCEPT !.kind = "test", !.name = nm, !.deps = e1 \o more])
   ELSE IF c = 13 THEN (IF filesT = {} THEN exe ELSE [Blank EXCEPT !.kind = "default", !.name = nm, !.deps = PickN(filesT, 1 + Below(R(3), 2), 40)])
   ELSE (IF linked = {} THEN exe ELSE [Blank EXCEPT !.kind = "install", !.name = nm, !.deps = PickN(linked, 1, 40)])
 GenInit == /\ rng \in { SeedOf(i, SeedBase) : i \in 1..NSeeds } /\ script = <<>>
